@@ -374,3 +374,843 @@ Proof.
       * rewrite Ei. rewrite get_set_same by lia. destruct Hc' as [[_ ->]|[Hlt _]]; [right; eauto|unfold i in Ei; lia].
       * rewrite get_set_other by exact Ei. exact H16.
 Qed.
+
+(* ================= lookup after insert: insert changes exactly the binding of its key ================= *)
+
+Lemma prefix_len_app_l a q b : prefix_len (a ++ q) (a ++ b) = (length a + prefix_len q b)%nat.
+Proof. induction a as [|x a IH]; cbn; [reflexivity|]. rewrite N.eqb_refl. f_equal. exact IH. Qed.
+
+(* a short node whose key is split in two: looking up below the first part *)
+Lemma lookup_short_split a b c q : a ++ b <> [] ->
+  lookup (NShort (a ++ b) c) (a ++ q) = lookup (mk_short b c) q.
+Proof.
+  intros Hne. destruct b as [|y b].
+  - rewrite app_nil_r. cbn [mk_short]. apply lookup_short_app.
+  - rewrite lookup_short, !app_length, prefix_len_app_l. cbn [mk_short]. rewrite lookup_short.
+    replace (length a + length q <? length a + length (y :: b))%nat with (length q <? length (y :: b))%nat
+      by (destruct (Nat.ltb_spec (length q) (length (y :: b))); symmetry; [apply Nat.ltb_lt|apply Nat.ltb_ge]; lia).
+    destruct (length q <? length (y :: b))%nat; [reflexivity|].
+    replace (length a + prefix_len q (y :: b) =? length a + length (y :: b))%nat with (prefix_len q (y :: b) =? length (y :: b))%nat
+      by (destruct (Nat.eqb_spec (prefix_len q (y :: b)) (length (y :: b))); symmetry; [apply Nat.eqb_eq|apply Nat.eqb_neq]; lia).
+    destruct (prefix_len q (y :: b) =? length (y :: b))%nat; [|reflexivity].
+    f_equal. rewrite skipn_app. rewrite (skipn_all2 a) by lia. cbn [app]. f_equal. lia.
+Qed.
+
+(* a key that does not run along the whole short key is not below it *)
+Lemma lookup_short_miss nk c q : prefix_len q nk <> length nk -> lookup (NShort nk c) q = None.
+Proof.
+  intro H. rewrite lookup_short. destruct (length q <? length nk)%nat; [reflexivity|].
+  destruct (Nat.eqb_spec (prefix_len q nk) (length nk)); [contradiction|reflexivity].
+Qed.
+
+(* two valid keys, one running along the whole of the other, are equal *)
+Lemma vkey_prefix_eq q r : vkey q -> vkey r -> prefix_len q r = length r -> q = r.
+Proof.
+  intros Hq Hr E. pose proof (prefix_len_full q r E) as Hpre.
+  destruct Hr as (p & -> & Hp). rewrite app_length in *. cbn [length] in *.
+  assert (Hn : nth (length p) q 0 = 16).
+  { rewrite Hpre. rewrite app_nth1 by (rewrite app_length; cbn; lia). rewrite app_nth2 by lia. rewrite Nat.sub_diag. reflexivity. }
+  assert (Hl : (length p < length q)%nat) by (rewrite Hpre, !app_length; cbn; lia).
+  pose proof (vkey_term_last q (length p) Hq Hl Hn) as Hs.
+  rewrite Hpre. rewrite skipn_all2 by lia. now rewrite app_nil_r.
+Qed.
+
+(* what a leaf hung below a diverging nibble answers *)
+Lemma lookup_tail_leaf x rest v q : vkey (x :: rest) -> vkey (x :: q) ->
+  lookup (mk_short rest (NVal v)) q = if list_eq_dec N.eq_dec q rest then Some v else None.
+Proof.
+  intros Hk Hq. destruct (list_eq_dec N.eq_dec q rest) as [->|Hne].
+  - destruct rest as [|y r]; [reflexivity|]. cbn [mk_short].
+    replace (y :: r) with ((y :: r) ++ []) at 2 by apply app_nil_r. now rewrite lookup_short_app.
+  - apply vkey_cons in Hk as [[-> ->]|[Hx Hr]].
+    + (* the key ended at the branch: so does q *)
+      apply vkey_cons in Hq as [[_ ->]|[Hlt _]]; [contradiction|lia].
+    + apply vkey_cons in Hq as [[-> _]|[_ Hq']]; [lia|].
+      destruct rest as [|y r]; [exfalso; exact (vkey_nonempty _ Hr eq_refl)|]. cbn [mk_short].
+      apply lookup_short_miss. intro E. apply Hne. now apply vkey_prefix_eq.
+Qed.
+
+Lemma firstn_skipn_nth {A} (l : list A) m d : (m < length l)%nat ->
+  l = firstn m l ++ nth m l d :: skipn (S m) l.
+Proof. intro H. rewrite <- (skipn_nth_cons l m d H). symmetry. apply firstn_skipn. Qed.
+
+Lemma prefix_len_lt_split q nk m : prefix_len q nk = m -> (m < length nk)%nat -> (m < length q)%nat ->
+  q = firstn m nk ++ nth m q 0 :: skipn (S m) q /\ nth m q 0 <> nth m nk 0.
+Proof.
+  intros E Hm Hq. split.
+  - rewrite <- E at 1. rewrite <- prefix_len_firstn. rewrite E. now apply firstn_skipn_nth.
+  - subst m. now apply prefix_len_nth_neq.
+Qed.
+
+(* a valid key is never a proper prefix of, nor shorter than the common part with, anything it
+   diverges from before its end: the position of divergence is inside it *)
+Lemma vkey_diverge_pos q pre : vkey q -> Forall lt16 pre -> (prefix_len q pre < length q)%nat.
+Proof.
+  intros Hq Hp. pose proof (prefix_len_le_l q pre). pose proof (prefix_len_le_r q pre).
+  destruct (Nat.eq_dec (prefix_len q pre) (length q)) as [E|]; [exfalso|lia].
+  rewrite prefix_len_sym in E. pose proof (prefix_len_full pre q E) as Hpre.
+  apply (lt16_no_term pre Hp). rewrite Hpre. apply in_or_app. left. now apply vkey_has_term.
+Qed.
+
+(* the result of a divergence, looked up *)
+Lemma lookup_branch_point pre i1 c1 i2 c2 q :
+  Forall lt16 pre -> i1 <= 16 -> i2 <= 16 -> i1 <> i2 -> vkey q ->
+  lookup (if Nat.eqb (length pre) 0 then NFull (branch2 i1 c1 i2 c2) else NShort pre (NFull (branch2 i1 c1 i2 c2))) q =
+  if Nat.eqb (prefix_len q pre) (length pre) then
+    let x := nth (length pre) q 0 in
+    let r := skipn (S (length pre)) q in
+    if x =? i2 then lookup c2 r else if x =? i1 then lookup c1 r else None
+  else None.
+Proof.
+  intros Hp H1 H2 Hne Hq.
+  pose proof (vkey_diverge_pos q pre Hq Hp) as Hpos.
+  destruct (Nat.eqb_spec (prefix_len q pre) (length pre)) as [E|E].
+  - pose proof (prefix_len_full q pre E) as Hpre. rewrite E in Hpos.
+    rewrite (skipn_nth_cons q (length pre) 0 Hpos) in Hpre.
+    set (x := nth (length pre) q 0) in *. set (r := skipn (S (length pre)) q) in *. cbn zeta.
+    assert (Hx : x <= 16) by (apply (vkey_le16 q x Hq); unfold x; apply nth_In; exact Hpos).
+    assert (Hl : lookup (NFull (branch2 i1 c1 i2 c2)) (x :: r) =
+                 if x =? i2 then lookup c2 r else if x =? i1 then lookup c1 r else None).
+    { rewrite lookup_full, branch2_get by assumption.
+      destruct (N.eqb_spec x i2) as [->|Hn2]; [now rewrite Nat.eqb_refl|].
+      replace (N.to_nat x =? N.to_nat i2)%nat with false by (symmetry; apply Nat.eqb_neq; lia).
+      destruct (N.eqb_spec x i1) as [->|Hn1]; [now rewrite Nat.eqb_refl|].
+      replace (N.to_nat x =? N.to_nat i1)%nat with false by (symmetry; apply Nat.eqb_neq; lia).
+      reflexivity. }
+    destruct (Nat.eqb_spec (length pre) 0) as [E0|E0].
+    + destruct pre; [|discriminate]. cbn [app] in Hpre. rewrite Hpre. exact Hl.
+    + rewrite Hpre. rewrite lookup_short_app. exact Hl.
+  - destruct (Nat.eqb_spec (length pre) 0) as [E0|E0].
+    + destruct pre; [|discriminate]. exfalso. apply E. destruct q; reflexivity.
+    + now apply lookup_short_miss.
+Qed.
+
+Lemma prefix_len_app_full q a b : prefix_len q (a ++ b) = length (a ++ b) -> prefix_len q a = length a.
+Proof.
+  intro E. pose proof (prefix_len_full q (a ++ b) E) as Hpre. rewrite Hpre, <- app_assoc. apply prefix_len_app.
+Qed.
+
+Lemma lookup_nil_insert k v q : vkey k -> vkey q ->
+  lookup (NShort k (NVal v)) q = if list_eq_dec N.eq_dec q k then Some v else None.
+Proof.
+  intros Hk Hq. destruct (list_eq_dec N.eq_dec q k) as [->|Hne].
+  - replace k with (k ++ []) at 2 by apply app_nil_r. now rewrite lookup_short_app.
+  - apply lookup_short_miss. intro E. apply Hne. now apply vkey_prefix_eq.
+Qed.
+
+(* insert where the key leaves the short key strictly inside it *)
+Lemma lookup_insert_diverge nk c k v q :
+  vkey k -> vkey q ->
+  let m := prefix_len k nk in
+  (m < length nk)%nat -> (m < length k)%nat -> nth m nk 0 <= 16 ->
+  lookup (let b2 := branch2 (nth m nk 0) (mk_short (skipn (S m) nk) c) (nth m k 0) (mk_short (skipn (S m) k) (NVal v)) in
+          if Nat.eqb m 0 then NFull b2 else NShort (firstn m k) (NFull b2)) q =
+  if list_eq_dec N.eq_dec q k then Some v else lookup (NShort nk c) q.
+Proof.
+  intros Hk Hq m Hm1 Hm2 Hi1. cbn zeta.
+  set (pre := firstn m k).
+  assert (Hlp : length pre = m) by (unfold pre; rewrite firstn_length; lia).
+  assert (Hpre_lt : Forall lt16 pre) by (apply vkey_firstn_lt16; assumption).
+  assert (Hpre_nk : pre = firstn m nk) by (unfold pre, m; apply prefix_len_firstn).
+  assert (Hneq : nth m nk 0 <> nth m k 0).
+  { intro Heq. apply (prefix_len_nth_neq k nk Hm2 Hm1). symmetry. exact Heq. }
+  assert (Hi2 : nth m k 0 <= 16) by (apply (vkey_le16 k _ Hk); apply nth_In; exact Hm2).
+  assert (Hk_split : k = pre ++ nth m k 0 :: skipn (S m) k) by (apply firstn_skipn_nth; exact Hm2).
+  assert (Hnk_split : nk = pre ++ nth m nk 0 :: skipn (S m) nk) by (rewrite Hpre_nk; apply firstn_skipn_nth; exact Hm1).
+  rewrite <- Hlp at 1.
+  rewrite (lookup_branch_point pre _ _ _ _ q Hpre_lt Hi1 Hi2 Hneq Hq). cbn zeta. rewrite Hlp.
+  destruct (Nat.eqb_spec (prefix_len q pre) m) as [E|E].
+  - pose proof (vkey_diverge_pos q pre Hq Hpre_lt) as Hpos. rewrite E in Hpos.
+    assert (Hq_split : q = pre ++ nth m q 0 :: skipn (S m) q).
+    { rewrite <- Hlp in E. pose proof (prefix_len_full q pre E) as Hp. rewrite Hlp in Hp.
+      rewrite (skipn_nth_cons q m 0 Hpos) in Hp. exact Hp. }
+    set (x := nth m q 0) in *. set (r := skipn (S m) q) in *.
+    assert (Hvq : vkey (x :: r)).
+    { unfold x, r. rewrite <- skipn_nth_cons by exact Hpos. apply vkey_skipn; assumption. }
+    assert (Hvk : vkey (nth m k 0 :: skipn (S m) k)).
+    { rewrite <- skipn_nth_cons by exact Hm2. apply vkey_skipn; assumption. }
+    destruct (N.eqb_spec x (nth m k 0)) as [Ex|Ex].
+    + rewrite Ex in Hvq. rewrite (lookup_tail_leaf _ _ v r Hvk Hvq).
+      destruct (list_eq_dec N.eq_dec r (skipn (S m) k)) as [Er|Er].
+      * destruct (list_eq_dec N.eq_dec q k) as [_|Hne]; [reflexivity|].
+        exfalso. apply Hne. rewrite Hq_split, Hk_split at 1. rewrite Ex, Er. reflexivity.
+      * destruct (list_eq_dec N.eq_dec q k) as [Heq|_].
+        -- exfalso. apply Er. unfold r. now rewrite Heq.
+        -- symmetry. apply lookup_short_miss. rewrite Hq_split, Hnk_split, prefix_len_app_l, Hlp.
+           cbn [prefix_len]. rewrite Ex. replace (nth m k 0 =? nth m nk 0) with false by (symmetry; apply N.eqb_neq; congruence).
+           rewrite app_length. cbn [length]. lia.
+    + destruct (list_eq_dec N.eq_dec q k) as [Heq|_]; [exfalso; apply Ex; unfold x; now rewrite Heq|].
+      destruct (N.eqb_spec x (nth m nk 0)) as [Ex1|Ex1].
+      * assert (H := lookup_short_split (pre ++ [nth m nk 0]) (skipn (S m) nk) c r ltac:(destruct pre; discriminate)).
+        rewrite <- !app_assoc in H. cbn [app] in H. rewrite <- Hnk_split in H.
+        rewrite Hq_split at 1. rewrite Ex1. symmetry. exact H.
+      * symmetry. apply lookup_short_miss. rewrite Hq_split, Hnk_split, prefix_len_app_l, Hlp.
+        cbn [prefix_len]. replace (x =? nth m nk 0) with false by (symmetry; apply N.eqb_neq; exact Ex1).
+        rewrite app_length. cbn [length]. lia.
+  - destruct (list_eq_dec N.eq_dec q k) as [Heq|_].
+    + exfalso. apply E. rewrite Heq, Hk_split. fold pre. rewrite <- (app_nil_r pre) at 2.
+      rewrite prefix_len_app_l. replace (prefix_len _ []) with 0%nat by (destruct (skipn (S m) k); reflexivity). lia.
+    + symmetry. apply lookup_short_miss. intro Ef. apply E. rewrite Hnk_split in Ef.
+      apply prefix_len_app_full in Ef. rewrite Ef. exact Hlp.
+Qed.
+
+(* lookup of a key that runs along the short key *)
+Lemma lookup_short_along nk c q : vkey q -> nk <> [] -> Forall lt16 nk -> prefix_len q nk = length nk ->
+  exists q', q = nk ++ q' /\ vkey q' /\ lookup (NShort nk c) q = lookup c q'.
+Proof.
+  intros Hq Hne Hlt E. pose proof (prefix_len_full q nk E) as Hpre.
+  assert (Hl : (length nk < length q)%nat).
+  { destruct (Nat.lt_ge_cases (length nk) (length q)) as [|Hge]; [assumption|exfalso].
+    rewrite skipn_all2 in Hpre by lia. rewrite app_nil_r in Hpre. subst q.
+    apply (lt16_no_term nk Hlt). now apply vkey_has_term. }
+  exists (skipn (length nk) q). split; [exact Hpre|]. split; [now apply vkey_skipn|].
+  rewrite Hpre at 1. apply lookup_short_app.
+Qed.
+
+(* insert changes exactly the binding of its key *)
+Theorem lookup_insert : forall n, wf n -> forall k v q, vkey k -> v <> [] -> vkey q ->
+  lookup (insert n k (NVal v)) q = if list_eq_dec N.eq_dec q k then Some v else lookup n q.
+Proof.
+  induction 1 as [p u Hp Hu|nk cs Hne Hlt Hfull IHfull|cs Hlen Hcnt Hch IHch H16]; intros k v q Hk Hv Hq.
+  - (* leaf *)
+    pose proof (vkey_nonempty k Hk) as Hkne. rewrite (insert_short _ _ _ _ Hkne). cbn zeta.
+    set (nk := p ++ [16]) in *. assert (Hnk : vkey nk) by (exists p; auto).
+    destruct (Nat.eqb_spec (prefix_len k nk) (length nk)) as [E|E].
+    + assert (Ek : k = nk) by (now apply vkey_prefix_eq). subst k.
+      rewrite E, skipn_all2 by lia. rewrite insert_empty.
+      rewrite (lookup_nil_insert nk v q Hnk Hq), (lookup_nil_insert nk u q Hnk Hq).
+      destruct (list_eq_dec N.eq_dec q nk); reflexivity.
+    + destruct (diverge_inside k nk Hk (or_introl Hnk) E) as [Hm1 Hm2].
+      apply lookup_insert_diverge; auto.
+      apply (vkey_le16 nk _ Hnk). apply nth_In. exact Hm1.
+  - (* extension *)
+    pose proof (vkey_nonempty k Hk) as Hkne. rewrite (insert_short _ _ _ _ Hkne). cbn zeta.
+    destruct (Nat.eqb_spec (prefix_len k nk) (length nk)) as [E|E].
+    + rewrite E.
+      destruct (lookup_short_along nk (NFull cs) k Hk Hne Hlt E) as (k' & Ek & Hk' & _).
+      assert (Esk : skipn (length nk) k = k') by (rewrite Ek, skipn_app, Nat.sub_diag, skipn_all; reflexivity).
+      rewrite Esk.
+      destruct (Nat.eq_dec (prefix_len q nk) (length nk)) as [Eq|Eq].
+      * destruct (lookup_short_along nk (insert (NFull cs) k' (NVal v)) q Hq Hne Hlt Eq) as (q' & Eqq & Hq' & L1).
+        destruct (lookup_short_along nk (NFull cs) q Hq Hne Hlt Eq) as (q'' & Eqq' & _ & L2).
+        assert (q'' = q') by (rewrite Eqq in Eqq'; now apply app_inv_head in Eqq'). subst q''.
+        rewrite L1, L2, (IHfull k' v q' Hk' Hv Hq').
+        destruct (list_eq_dec N.eq_dec q' k') as [Eqk|Hn]; destruct (list_eq_dec N.eq_dec q k) as [Hqk|Hqk]; try reflexivity.
+        -- exfalso. apply Hqk. now rewrite Eqq, Ek, Eqk.
+        -- exfalso. apply Hn. rewrite Eqq, Ek in Hqk. now apply app_inv_head in Hqk.
+      * rewrite !lookup_short_miss by exact Eq.
+        destruct (list_eq_dec N.eq_dec q k) as [->|_]; [contradiction|reflexivity].
+    + destruct (diverge_inside k nk Hk (or_intror (conj Hne Hlt)) E) as [Hm1 Hm2].
+      apply lookup_insert_diverge; auto.
+      assert (nth (prefix_len k nk) nk 0 < 16) by (apply (Forall_nth_lt lt16); assumption). lia.
+  - (* full node *)
+    destruct k as [|k0 kr]; [exfalso; exact (vkey_nonempty _ Hk eq_refl)|].
+    destruct q as [|q0 qr]; [exfalso; exact (vkey_nonempty _ Hq eq_refl)|].
+    assert (Hk0 : k0 <= 16) by (apply (vkey_le16 _ _ Hk); left; reflexivity).
+    assert (Hq0 : q0 <= 16) by (apply (vkey_le16 _ _ Hq); left; reflexivity).
+    assert (Hi : (N.to_nat k0 < length cs)%nat) by lia.
+    rewrite (insert_full cs k0 kr (NVal v) Hi), !lookup_full.
+    destruct (N.eq_dec q0 k0) as [->|Hne0].
+    + rewrite get_set_same by exact Hi.
+      set (i := N.to_nat k0) in *.
+      assert (Hc : lookup (insert (get_child cs i) kr (NVal v)) qr =
+                   if list_eq_dec N.eq_dec qr kr then Some v else lookup (get_child cs i) qr).
+      { apply vkey_cons in Hk as [[-> ->]|[Hlt Hkr]].
+        - apply vkey_cons in Hq as [[_ ->]|[Hl _]]; [|lia]. rewrite insert_empty. reflexivity.
+        - apply vkey_cons in Hq as [[E _]|[_ Hqr]]; [lia|].
+          assert (Hi16 : (i < 16)%nat) by (unfold i; lia).
+          destruct (get_child cs i) as [|w|nk c|cs1] eqn:Eg.
+          + rewrite insert_nil by (apply vkey_nonempty; exact Hkr). rewrite lookup_nil_insert by assumption.
+            destruct (list_eq_dec N.eq_dec qr kr); reflexivity.
+          + exfalso. pose proof (Hch i (NVal w) ltac:(rewrite get_nth_error by exact Hi; rewrite Eg; reflexivity) ltac:(discriminate) Hi16) as W. inversion W.
+          + apply (IHch i); auto; [rewrite get_nth_error by exact Hi; rewrite Eg; reflexivity | discriminate].
+          + apply (IHch i); auto; [rewrite get_nth_error by exact Hi; rewrite Eg; reflexivity | discriminate]. }
+      rewrite Hc.
+      destruct (list_eq_dec N.eq_dec qr kr) as [Er|Hn]; destruct (list_eq_dec N.eq_dec (k0 :: qr) (k0 :: kr)) as [He|He]; try reflexivity.
+      * exfalso. apply He. now rewrite Er.
+      * exfalso. apply Hn. now inversion He.
+    + rewrite get_set_other by lia.
+      destruct (list_eq_dec N.eq_dec (q0 :: qr) (k0 :: kr)) as [He|_]; [inversion He; contradiction|reflexivity].
+Qed.
+
+(* on the empty trie *)
+Lemma lookup_insert_nil k v q : vkey k -> vkey q ->
+  lookup (insert NNil k (NVal v)) q = if list_eq_dec N.eq_dec q k then Some v else lookup NNil q.
+Proof. intros Hk Hq. rewrite insert_nil by (now apply vkey_nonempty). now apply lookup_nil_insert. Qed.
+
+(* any sequence of insertions: the trie answers like the association list *)
+Fixpoint alist_get (l : list (list N * bytes)) (q : list N) : option bytes :=
+  match l with
+  | [] => None
+  | (k, v) :: t => if list_eq_dec N.eq_dec q k then Some v else alist_get t q
+  end.
+Definition insert_all (l : list (list N * bytes)) : node :=
+  fold_right (fun kv n => insert n (fst kv) (NVal (snd kv))) NNil l.
+
+Theorem lookup_insert_all l q :
+  Forall (fun kv => vkey (fst kv) /\ snd kv <> []) l -> vkey q ->
+  wfr (insert_all l) /\ lookup (insert_all l) q = alist_get l q.
+Proof.
+  intros Hl Hq. induction l as [|[k v] t IH]; cbn [insert_all fold_right alist_get fst snd].
+  - split; [left; reflexivity|reflexivity].
+  - inversion Hl as [|? ? [Hk Hv] Ht]; subst. cbn [fst snd] in *. destruct (IH Ht) as [[En|W] L].
+    + fold (insert_all t). rewrite En in *. split.
+      * right. rewrite insert_nil by (now apply vkey_nonempty). destruct Hk as (p & -> & Hp). now apply wf_leaf.
+      * rewrite lookup_insert_nil by assumption. rewrite <- L. reflexivity.
+    + fold (insert_all t). split.
+      * right. now apply insert_wf.
+      * rewrite lookup_insert by assumption. now rewrite L.
+Qed.
+
+(* ---------- byte keys ---------- *)
+Definition is_byte (x : N) : Prop := x < 256.
+
+Lemma key_of_bytes_vkey b : Forall is_byte b -> vkey (key_of_bytes b).
+Proof.
+  intros Hb. unfold key_of_bytes. exists (flat_map (fun x => [x / 16; x mod 16]) b). split; [reflexivity|].
+  induction Hb as [|x t Hx Ht IH]; cbn [flat_map app]; [constructor|].
+  unfold is_byte in Hx. constructor; [unfold lt16; apply N.div_lt_upper_bound; lia|].
+  constructor; [unfold lt16; apply N.mod_lt; lia | exact IH].
+Qed.
+
+Lemma key_of_bytes_inj a b : key_of_bytes a = key_of_bytes b -> a = b.
+Proof.
+  unfold key_of_bytes. intro H. apply app_inj_tail in H. destruct H as [H _].
+  revert b H. induction a as [|x a IH]; intros [|y b] H; cbn [flat_map app] in H; try discriminate; [reflexivity|].
+  injection H as Hd Hm Ht. f_equal; [|now apply IH].
+  rewrite (N.div_mod x 16), (N.div_mod y 16) by lia. now rewrite Hd, Hm.
+Qed.
+
+(* Trie.Update followed by Trie.Get, on byte strings *)
+Theorem get_update n k v q : wfr n -> Forall is_byte k -> Forall is_byte q -> v <> [] ->
+  get (update n k v) q = if list_eq_dec N.eq_dec q k then Some v else get n q.
+Proof.
+  intros Hn Hk Hq Hv. unfold get, update. destruct v as [|v0 vt]; [contradiction|].
+  pose proof (key_of_bytes_vkey k Hk) as Vk. pose proof (key_of_bytes_vkey q Hq) as Vq.
+  assert (L : lookup (insert n (key_of_bytes k) (NVal (v0 :: vt))) (key_of_bytes q) =
+              if list_eq_dec N.eq_dec (key_of_bytes q) (key_of_bytes k) then Some (v0 :: vt) else lookup n (key_of_bytes q)).
+  { destruct Hn as [->|W]; [now apply lookup_insert_nil | now apply lookup_insert]. }
+  rewrite L.
+  destruct (list_eq_dec N.eq_dec (key_of_bytes q) (key_of_bytes k)) as [E|E]; destruct (list_eq_dec N.eq_dec q k) as [E'|E']; try reflexivity.
+  - exfalso. apply E'. now apply key_of_bytes_inj.
+  - exfalso. apply E. now rewrite E'.
+Qed.
+
+(* ================= canonical form: equal content, equal tree ================= *)
+
+Definition has_key (n : node) (q : list N) : Prop := vkey q /\ lookup n q <> None.
+
+Lemma count_two cs : (2 <= count_children cs)%nat ->
+  exists i j, (i < j)%nat /\ (j < length cs)%nat /\ get_child cs i <> NNil /\ get_child cs j <> NNil.
+Proof.
+  unfold count_children.
+  assert (One : forall l, (1 <= length (filter (fun c => match c with NNil => false | _ => true end) l))%nat ->
+                exists j, (j < length l)%nat /\ get_child l j <> NNil).
+  { induction l as [|c t IH]; cbn; [lia|]. destruct c; cbn; intros H.
+    - destruct (IH H) as (j & Hj & Hg). exists (S j). split; [lia|exact Hg].
+    - exists 0%nat. split; [lia|discriminate].
+    - exists 0%nat. split; [lia|discriminate].
+    - exists 0%nat. split; [lia|discriminate]. }
+  induction cs as [|c t IH]; cbn; [lia|]. destruct c; cbn; intros H.
+  - destruct (IH H) as (i & j & Hij & Hj & Hi' & Hj'). exists (S i), (S j). repeat split; auto; lia.
+  - destruct (One t ltac:(lia)) as (j & Hj & Hg). exists 0%nat, (S j). repeat split; auto; try lia; discriminate.
+  - destruct (One t ltac:(lia)) as (j & Hj & Hg). exists 0%nat, (S j). repeat split; auto; try lia; discriminate.
+  - destruct (One t ltac:(lia)) as (j & Hj & Hg). exists 0%nat, (S j). repeat split; auto; try lia; discriminate.
+Qed.
+
+(* a child slot of a well-formed full node that is not empty holds a key starting with its nibble *)
+Lemma full_child_key cs i : wf (NFull cs) -> (i < 17)%nat -> get_child cs i <> NNil ->
+  (forall j c, nth_error cs j = Some c -> c <> NNil -> (j < 16)%nat -> exists q, has_key c q) ->
+  exists q, has_key (NFull cs) (N.of_nat i :: q).
+Proof.
+  intros W Hi Hg IH. inversion W as [| |cs0 Hlen Hcnt Hch H16]; subst.
+  destruct (Nat.eq_dec i 16) as [->|Hne].
+  - destruct H16 as [E|(v & E & Hv)]; [contradiction|].
+    exists []. split; [apply vkey_term|]. rewrite lookup_full. change (N.to_nat (N.of_nat 16)) with 16%nat. rewrite E. discriminate.
+  - assert (Hi16 : (i < 16)%nat) by lia.
+    destruct (IH i (get_child cs i) ltac:(apply get_nth_error; lia) Hg Hi16) as (q & Vq & Lq).
+    exists q. split; [apply vkey_cons_lt; [lia|exact Vq]|]. rewrite lookup_full, Nat2N.id. exact Lq.
+Qed.
+
+Lemma wf_has_key n : wf n -> exists q, has_key n q.
+Proof.
+  induction 1 as [p u Hp Hu|nk cs Hne Hlt Hfull IHfull|cs Hlen Hcnt Hch IHch H16].
+  - exists (p ++ [16]). split; [exists p; auto|].
+    replace (p ++ [16]) with ((p ++ [16]) ++ []) at 2 by apply app_nil_r. rewrite lookup_short_app. discriminate.
+  - destruct IHfull as (q & Vq & Lq). exists (nk ++ q). split.
+    + destruct Vq as (p & -> & Hp). exists (nk ++ p). split; [now rewrite app_assoc|]. apply Forall_app. auto.
+    + now rewrite lookup_short_app.
+  - destruct (count_two cs Hcnt) as (i & j & Hij & Hj & Hi' & Hj').
+    destruct (full_child_key cs i (wf_full cs Hlen Hcnt Hch H16) ltac:(lia) Hi' IHch) as (q & Hq).
+    eexists. exact Hq.
+Qed.
+
+(* a well-formed full node holds two keys with different first nibbles *)
+Lemma full_two_keys cs : wf (NFull cs) ->
+  exists x y qx qy, x <> y /\ has_key (NFull cs) (x :: qx) /\ has_key (NFull cs) (y :: qy).
+Proof.
+  intros W. inversion W as [| |cs0 Hlen Hcnt Hch H16]; subst.
+  destruct (count_two cs Hcnt) as (i & j & Hij & Hj & Hi' & Hj').
+  assert (IH : forall j c, nth_error cs j = Some c -> c <> NNil -> (j < 16)%nat -> exists q, has_key c q).
+  { intros k c Hn Hc Hk. apply wf_has_key. now apply (Hch k c). }
+  destruct (full_child_key cs i W ltac:(lia) Hi' IH) as (qi & Hqi).
+  destruct (full_child_key cs j W ltac:(lia) Hj' IH) as (qj & Hqj).
+  exists (N.of_nat i), (N.of_nat j), qi, qj. split; [lia|]. auto.
+Qed.
+
+(* keys below a short node run along its key *)
+Lemma short_key_prefix nk c q : lookup (NShort nk c) q <> None -> exists q', q = nk ++ q' /\ lookup c q' <> None.
+Proof.
+  intro H. destruct (Nat.eq_dec (prefix_len q nk) (length nk)) as [E|E].
+  - pose proof (prefix_len_full q nk E) as Hpre. exists (skipn (length nk) q). split; [exact Hpre|].
+    rewrite Hpre, lookup_short_app in H. exact H.
+  - now rewrite lookup_short_miss in H.
+Qed.
+
+Definition same (a b : node) : Prop := forall q, vkey q -> lookup a q = lookup b q.
+
+Lemma leaf_one_key p u q : Forall lt16 p -> has_key (NShort (p ++ [16]) (NVal u)) q -> q = p ++ [16].
+Proof.
+  intros Hp [Vq Lq]. rewrite lookup_nil_insert in Lq; [|exists p; auto|exact Vq].
+  destruct (list_eq_dec N.eq_dec q (p ++ [16])); [assumption|contradiction].
+Qed.
+
+Lemma node_nil_dec (c : node) : {c = NNil} + {c <> NNil}.
+Proof. destruct c; [left; reflexivity|right; discriminate..]. Qed.
+
+Lemma vkey_app_lt pre q : Forall lt16 pre -> vkey q -> vkey (pre ++ q).
+Proof. intros Hp (p & -> & Hq). exists (pre ++ p). split; [now rewrite app_assoc|]. apply Forall_app. auto. Qed.
+
+Lemma ext_two_keys nk cs : Forall lt16 nk -> wf (NFull cs) ->
+  exists x y qx qy, x <> y /\ has_key (NShort nk (NFull cs)) (nk ++ x :: qx) /\ has_key (NShort nk (NFull cs)) (nk ++ y :: qy).
+Proof.
+  intros Hlt W. destruct (full_two_keys cs W) as (x & y & qx & qy & Hne & [Vx Lx] & [Vy Ly]).
+  exists x, y, qx, qy. split; [exact Hne|]. split; (split; [now apply vkey_app_lt | now rewrite lookup_short_app]).
+Qed.
+
+(* a common prefix of two lists that part right after [a] is a prefix of [a] *)
+Lemma common_prefix_of_fork {A} (a : list A) x y ta tb b ra rb :
+  x <> y -> a ++ x :: ta = b ++ ra -> a ++ y :: tb = b ++ rb -> exists r, a = b ++ r.
+Proof.
+  intros Hne. revert a. induction b as [|z b IH]; intros a H1 H2; [exists a; reflexivity|].
+  destruct a as [|w a]; cbn in H1, H2.
+  - injection H1 as E1 _. injection H2 as E2 _. congruence.
+  - injection H1 as E1 H1. injection H2 as _ H2. subst w. destruct (IH a H1 H2) as (r & ->). exists r. reflexivity.
+Qed.
+
+Lemma list_eq_get (a b : list node) : length a = length b ->
+  (forall i, (i < length a)%nat -> get_child a i = get_child b i) -> a = b.
+Proof.
+  revert b. induction a as [|x a IH]; intros [|y b] Hl H; cbn in Hl; try lia; [reflexivity|].
+  f_equal; [exact (H 0%nat ltac:(cbn; lia))|]. apply IH; [lia|]. intros i Hi. exact (H (S i) ltac:(cbn; lia)).
+Qed.
+
+Lemma same_sym a b : same a b -> same b a.
+Proof. intros H q Vq. symmetry. now apply H. Qed.
+
+Lemma leaf_vs_many p u n : Forall lt16 p -> same (NShort (p ++ [16]) (NVal u)) n ->
+  forall q1 q2, has_key n q1 -> has_key n q2 -> q1 = q2.
+Proof.
+  intros Hp S q1 q2 [V1 L1] [V2 L2].
+  rewrite <- (S q1 V1) in L1. rewrite <- (S q2 V2) in L2.
+  rewrite (leaf_one_key p u q1 Hp (conj V1 L1)), (leaf_one_key p u q2 Hp (conj V2 L2)). reflexivity.
+Qed.
+
+Theorem canonical : forall n1, wf n1 -> forall n2, wf n2 -> same n1 n2 -> n1 = n2.
+Proof.
+  induction 1 as [p1 u1 Hp1 Hu1|nk1 cs1 Hne1 Hlt1 Hf1 IHf1|cs1 Hlen1 Hcnt1 Hch1 IHch1 H161];
+    intros n2 W2 S.
+  - (* leaf on the left *)
+    inversion W2 as [p2 u2 Hp2 Hu2|nk2 cs2 Hne2 Hlt2 Hf2|cs2 Hlen2 Hcnt2 Hch2 H162]; subst.
+    + assert (K : has_key (NShort (p2 ++ [16]) (NVal u2)) (p1 ++ [16])).
+      { split; [exists p1; auto|]. rewrite <- S by (exists p1; auto).
+        replace (p1 ++ [16]) with ((p1 ++ [16]) ++ []) at 2 by apply app_nil_r. rewrite lookup_short_app. discriminate. }
+      pose proof (leaf_one_key p2 u2 _ Hp2 K) as E. apply app_inj_tail in E. destruct E as [-> _].
+      assert (V : vkey (p2 ++ [16])) by (exists p2; auto).
+      pose proof (S _ V) as L. rewrite !lookup_nil_insert in L by assumption.
+      destruct (list_eq_dec N.eq_dec (p2 ++ [16]) (p2 ++ [16])); [|contradiction]. now inversion L.
+    + exfalso. destruct (ext_two_keys nk2 cs2 Hlt2 Hf2) as (x & y & qx & qy & Hne & K1 & K2).
+      pose proof (leaf_vs_many p1 u1 _ Hp1 S _ _ K1 K2) as E. apply app_inv_head in E. inversion E. contradiction.
+    + exfalso. destruct (full_two_keys cs2 W2) as (x & y & qx & qy & Hne & K1 & K2).
+      pose proof (leaf_vs_many p1 u1 _ Hp1 S _ _ K1 K2) as E. inversion E. contradiction.
+  - (* extension on the left *)
+    pose proof (wf_ext nk1 cs1 Hne1 Hlt1 Hf1) as W1.
+    inversion W2 as [p2 u2 Hp2 Hu2|nk2 cs2 Hne2 Hlt2 Hf2|cs2 Hlen2 Hcnt2 Hch2 H162]; subst.
+    + exfalso. destruct (ext_two_keys nk1 cs1 Hlt1 Hf1) as (x & y & qx & qy & Hne & K1 & K2).
+      pose proof (leaf_vs_many p2 u2 _ Hp2 (same_sym _ _ S) _ _ K1 K2) as E. apply app_inv_head in E. inversion E. contradiction.
+    + (* both extensions: the short keys coincide, then the full nodes *)
+      assert (P12 : exists r, nk1 = nk2 ++ r).
+      { destruct (ext_two_keys nk1 cs1 Hlt1 Hf1) as (x & y & qx & qy & Hne & [V1 L1] & [V2 L2]).
+        rewrite (S _ V1) in L1. rewrite (S _ V2) in L2.
+        destruct (short_key_prefix _ _ _ L1) as (r1 & E1 & _). destruct (short_key_prefix _ _ _ L2) as (r2 & E2 & _).
+        exact (common_prefix_of_fork nk1 x y qx qy nk2 r1 r2 Hne E1 E2). }
+      assert (P21 : exists r, nk2 = nk1 ++ r).
+      { destruct (ext_two_keys nk2 cs2 Hlt2 Hf2) as (x & y & qx & qy & Hne & [V1 L1] & [V2 L2]).
+        rewrite <- (S _ V1) in L1. rewrite <- (S _ V2) in L2.
+        destruct (short_key_prefix _ _ _ L1) as (r1 & E1 & _). destruct (short_key_prefix _ _ _ L2) as (r2 & E2 & _).
+        exact (common_prefix_of_fork nk2 x y qx qy nk1 r1 r2 Hne E1 E2). }
+      assert (Enk : nk1 = nk2).
+      { destruct P12 as (r & E1). destruct P21 as (r' & E2).
+        assert (length r = 0%nat) by (apply (f_equal (@length N)) in E1; apply (f_equal (@length N)) in E2; rewrite app_length in *; lia).
+        destruct r; [|discriminate]. now rewrite app_nil_r in E1. }
+      subst nk2. f_equal. apply IHf1; [exact Hf2|].
+      intros q Vq. pose proof (S (nk1 ++ q) (vkey_app_lt nk1 q Hlt1 Vq)) as L. now rewrite !lookup_short_app in L.
+    + exfalso. destruct (full_two_keys cs2 W2) as (x & y & qx & qy & Hne & [V1 L1] & [V2 L2]).
+      rewrite <- (S _ V1) in L1. rewrite <- (S _ V2) in L2.
+      destruct (short_key_prefix _ _ _ L1) as (r1 & E1 & _). destruct (short_key_prefix _ _ _ L2) as (r2 & E2 & _).
+      destruct nk1 as [|z nk1]; [contradiction|]. cbn in E1, E2. inversion E1. inversion E2. congruence.
+  - (* full node on the left *)
+    pose proof (wf_full cs1 Hlen1 Hcnt1 Hch1 H161) as W1.
+    inversion W2 as [p2 u2 Hp2 Hu2|nk2 cs2 Hne2 Hlt2 Hf2|cs2 Hlen2 Hcnt2 Hch2 H162]; subst.
+    + exfalso. destruct (full_two_keys cs1 W1) as (x & y & qx & qy & Hne & K1 & K2).
+      pose proof (leaf_vs_many p2 u2 _ Hp2 (same_sym _ _ S) _ _ K1 K2) as E. inversion E. contradiction.
+    + exfalso. destruct (full_two_keys cs1 W1) as (x & y & qx & qy & Hne & [V1 L1] & [V2 L2]).
+      rewrite (S _ V1) in L1. rewrite (S _ V2) in L2.
+      destruct (short_key_prefix _ _ _ L1) as (r1 & E1 & _). destruct (short_key_prefix _ _ _ L2) as (r2 & E2 & _).
+      destruct nk2 as [|z nk2]; [contradiction|]. cbn in E1, E2. inversion E1. inversion E2. congruence.
+    + f_equal. apply list_eq_get; [congruence|]. intros i Hi. rewrite Hlen1 in Hi.
+      destruct (Nat.eq_dec i 16) as [->|Hne].
+      * (* the value slot *)
+        pose proof (S [16] vkey_term) as L. rewrite !lookup_full in L. change (N.to_nat 16) with 16%nat in L.
+        destruct H161 as [E1|(v1 & E1 & _)]; destruct H162 as [E2|(v2 & E2 & _)]; rewrite E1, E2 in *; cbn in L; congruence.
+      * assert (Hi16 : (i < 16)%nat) by lia.
+        set (c1 := get_child cs1 i). set (c2 := get_child cs2 i).
+        assert (Sc : same c1 c2).
+        { assert (Hilt : N.of_nat i < 16) by lia.
+          intros q Vq. pose proof (S (N.of_nat i :: q) (vkey_cons_lt _ _ Hilt Vq)) as L.
+          now rewrite !lookup_full, Nat2N.id in L. }
+        assert (N1 : nth_error cs1 i = Some c1) by (apply get_nth_error; lia).
+        assert (N2 : nth_error cs2 i = Some c2) by (apply get_nth_error; lia).
+        destruct (node_nil_dec c1) as [E1|E1]; destruct (node_nil_dec c2) as [E2|E2].
+        -- congruence.
+        -- exfalso. destruct (wf_has_key c2 (Hch2 i c2 N2 E2 Hi16)) as (q & Vq & Lq).
+           rewrite <- (Sc q Vq), E1 in Lq. now apply Lq.
+        -- exfalso. destruct (wf_has_key c1 (Hch1 i c1 N1 E1 Hi16)) as (q & Vq & Lq).
+           rewrite (Sc q Vq), E2 in Lq. now apply Lq.
+        -- apply (IHch1 i c1 N1 E1 Hi16 c2 (Hch2 i c2 N2 E2 Hi16) Sc).
+Qed.
+
+Theorem canonical_root n1 n2 : wfr n1 -> wfr n2 -> same n1 n2 -> n1 = n2.
+Proof.
+  intros [->|W1] [->|W2] S; [reflexivity| | |now apply canonical].
+  - exfalso. destruct (wf_has_key n2 W2) as (q & Vq & Lq). rewrite <- (S q Vq) in Lq. now apply Lq.
+  - exfalso. destruct (wf_has_key n1 W1) as (q & Vq & Lq). rewrite (S q Vq) in Lq. now apply Lq.
+Qed.
+
+(* history independence: two histories of insertions that bind the same keys to the same values
+   build the same tree - and so the same root under any hash function *)
+Theorem insert_history_independent l1 l2 :
+  Forall (fun kv => vkey (fst kv) /\ snd kv <> []) l1 ->
+  Forall (fun kv => vkey (fst kv) /\ snd kv <> []) l2 ->
+  (forall q, vkey q -> alist_get l1 q = alist_get l2 q) ->
+  insert_all l1 = insert_all l2 /\ forall H, root_hash H (insert_all l1) = root_hash H (insert_all l2).
+Proof.
+  intros H1 H2 E.
+  assert (Eq : insert_all l1 = insert_all l2).
+  { apply canonical_root.
+    - destruct (lookup_insert_all l1 [16] H1 vkey_term) as [W _]. exact W.
+    - destruct (lookup_insert_all l2 [16] H2 vkey_term) as [W _]. exact W.
+    - intros q Vq. destruct (lookup_insert_all l1 q H1 Vq) as [_ L1]. destruct (lookup_insert_all l2 q H2 Vq) as [_ L2].
+      rewrite L1, L2. now apply E. }
+  split; [exact Eq|]. intro H. now rewrite Eq.
+Qed.
+
+(* ================= deletion ================= *)
+
+Lemma first_child_spec cs : forall base, (1 <= count_children cs)%nat ->
+  let pos := first_child cs base in
+  (base <= pos)%nat /\ (pos - base < length cs)%nat /\ get_child cs (pos - base) <> NNil /\
+  forall j, (j < pos - base)%nat -> get_child cs j = NNil.
+Proof.
+  unfold count_children. induction cs as [|c t IH]; intros base H; cbn in H; [lia|].
+  assert (Here : c <> NNil -> first_child (c :: t) base = base) by (destruct c; [contradiction|reflexivity..]).
+  destruct (node_nil_dec c) as [->|Hc].
+  - cbn [first_child]. cbn in H. destruct (IH (S base) H) as (H1 & H2 & H3 & H4). cbv zeta in *.
+    set (pos := first_child t (S base)) in *.
+    replace (pos - base)%nat with (S (pos - S base)) by lia.
+    split; [lia|]. split; [cbn; lia|]. split; [exact H3|].
+    intros j Hj. destruct j as [|j]; [reflexivity|]. cbn [get_child nth]. apply H4. lia.
+  - cbv zeta. rewrite (Here Hc), Nat.sub_diag.
+    split; [lia|]. split; [cbn; lia|]. split; [exact Hc|]. intros j Hj. lia.
+Qed.
+
+Lemma count_one_unique cs i j : count_children cs = 1%nat ->
+  get_child cs i <> NNil -> get_child cs j <> NNil -> (i < length cs)%nat -> (j < length cs)%nat -> i = j.
+Proof.
+  intros Hc Hi Hj Li Lj. destruct (Nat.eq_dec i j) as [|Hne]; [assumption|exfalso].
+  assert (T : (2 <= count_children cs)%nat).
+  { clear Hc. unfold count_children. revert i j Hi Hj Li Lj Hne.
+    induction cs as [|c t IH]; intros i j Hi Hj Li Lj Hne; [cbn in Li; lia|].
+    assert (One : forall l k, (k < length l)%nat -> get_child l k <> NNil ->
+                  (1 <= length (filter (fun c => match c with NNil => false | _ => true end) l))%nat).
+    { induction l as [|x l IHl]; intros k Hk Hg; [cbn in Hk; lia|]. destruct k as [|k].
+      - cbn in Hg. destruct x; try contradiction; cbn; lia.
+      - cbn in Hg, Hk. specialize (IHl k ltac:(lia) Hg). destruct x; cbn; lia. }
+    destruct i as [|i]; destruct j as [|j]; try lia.
+    - cbn in Hi, Hj, Lj. pose proof (One t j ltac:(lia) Hj). destruct c; try contradiction; cbn; lia.
+    - cbn in Hi, Hj, Li. pose proof (One t i ltac:(lia) Hi). destruct c; try contradiction; cbn; lia.
+    - cbn in Hi, Hj, Li, Lj. specialize (IH i j Hi Hj ltac:(lia) ltac:(lia) ltac:(lia)). destruct c; cbn; lia. }
+  lia.
+Qed.
+
+(* the children of a full node after one of them was replaced: what reduce_full needs *)
+Definition kids_ok (cs : list node) : Prop :=
+  length cs = 17%nat /\
+  (forall i c, nth_error cs i = Some c -> c <> NNil -> (i < 16)%nat -> wf c) /\
+  (get_child cs 16 = NNil \/ exists v, get_child cs 16 = NVal v /\ v <> []).
+
+Lemma reduce_full_wf cs : kids_ok cs -> (1 <= count_children cs)%nat -> wf (reduce_full cs).
+Proof.
+  intros (Hlen & Hch & H16) Hc. unfold reduce_full.
+  destruct (Nat.eqb_spec (count_children cs) 1) as [E1|E1]; [|apply wf_full; auto; lia].
+  destruct (first_child_spec cs 0 Hc) as (_ & Hp & Hg & _). cbv zeta in *. rewrite Nat.sub_0_r in *.
+  set (pos := first_child cs 0) in *.
+  assert (Wp : (pos < 16)%nat -> wf (get_child cs pos))
+    by (intro; apply (Hch pos); [apply get_nth_error; exact Hp | exact Hg | assumption]).
+  destruct (get_child cs pos) as [|w|ck cv|cs2] eqn:Eg; [contradiction| | |].
+  - (* a value: only in the last slot *)
+    destruct (Nat.eq_dec pos 16) as [E16|E16].
+    + rewrite E16 in *. destruct H16 as [E|(v & E & Hv)]; rewrite E in Eg; [discriminate|]. inversion Eg; subst.
+      change [N.of_nat 16] with ([] ++ [16]). apply wf_leaf; [constructor|exact Hv].
+    + exfalso. pose proof (Wp ltac:(lia)) as W. inversion W.
+  - destruct (Nat.eqb_spec pos 16) as [E16|E16].
+    + exfalso. rewrite E16 in Eg. destruct H16 as [E|(v & E & _)]; rewrite E in Eg; discriminate.
+    + assert (Hlt : N.of_nat pos < 16) by lia.
+      pose proof (Wp ltac:(lia)) as W.
+      inversion W as [p u Hpp Hu|k2 cs3 Hne Hl2 Hf2|]; subst.
+      * change (N.of_nat pos :: p ++ [16]) with ((N.of_nat pos :: p) ++ [16]). apply wf_leaf; [constructor; assumption|exact Hu].
+      * apply wf_ext; [discriminate|constructor; assumption|exact Hf2].
+  - destruct (Nat.eq_dec pos 16) as [E16|E16].
+    + exfalso. rewrite E16 in Eg. destruct H16 as [E|(v & E & _)]; rewrite E in Eg; discriminate.
+    + pose proof (Wp ltac:(lia)) as W.
+      apply wf_ext; [discriminate|constructor; [unfold lt16; lia|constructor]|exact W].
+Qed.
+
+Lemma reduce_full_lookup cs q : kids_ok cs -> (1 <= count_children cs)%nat -> vkey q ->
+  lookup (reduce_full cs) q = lookup (NFull cs) q.
+Proof.
+  intros (Hlen & Hch & H16) Hc Vq. unfold reduce_full.
+  destruct (Nat.eqb_spec (count_children cs) 1) as [E1|E1]; [|reflexivity].
+  destruct (first_child_spec cs 0 Hc) as (_ & Hp & Hg & _). cbv zeta in *. rewrite Nat.sub_0_r in *.
+  set (pos := first_child cs 0) in *.
+  destruct q as [|q0 qr]; [exfalso; exact (vkey_nonempty _ Vq eq_refl)|].
+  assert (Hq0 : q0 <= 16) by (apply (vkey_le16 _ _ Vq); left; reflexivity).
+  rewrite lookup_full.
+  assert (Other : N.to_nat q0 <> pos -> get_child cs (N.to_nat q0) = NNil).
+  { intro Hne. destruct (node_nil_dec (get_child cs (N.to_nat q0))) as [E|E]; [exact E|exfalso].
+    apply Hne. apply (count_one_unique cs _ _ E1 E Hg); lia. }
+  assert (Single : forall key c, key <> [] -> hd 0 key = N.of_nat pos ->
+            lookup (NShort key c) (q0 :: qr) =
+            if q0 =? N.of_nat pos then lookup (mk_short (tl key) c) qr else None).
+  { intros key c Hk Hh. destruct key as [|z key]; [contradiction|]. cbn in Hh. subst z. cbn [tl].
+    destruct (N.eqb_spec q0 (N.of_nat pos)) as [->|Hne].
+    - change (N.of_nat pos :: key) with ([N.of_nat pos] ++ key). change (N.of_nat pos :: qr) with ([N.of_nat pos] ++ qr).
+      apply lookup_short_split. discriminate.
+    - apply lookup_short_miss. cbn [prefix_len]. replace (q0 =? N.of_nat pos) with false by (symmetry; now apply N.eqb_neq). cbn; lia. }
+  assert (Fin : forall key c, key <> [] -> hd 0 key = N.of_nat pos -> lookup (mk_short (tl key) c) qr = lookup (get_child cs pos) qr ->
+            lookup (NShort key c) (q0 :: qr) = lookup (get_child cs (N.to_nat q0)) qr).
+  { intros key c Hk Hh Hl. rewrite (Single key c Hk Hh).
+    destruct (N.eqb_spec q0 (N.of_nat pos)) as [->|Hne].
+    - rewrite Nat2N.id. exact Hl.
+    - rewrite Other by lia. reflexivity. }
+  assert (Wp : (pos < 16)%nat -> wf (get_child cs pos))
+    by (intro; apply (Hch pos); [apply get_nth_error; exact Hp | exact Hg | assumption]).
+  destruct (get_child cs pos) as [|w|ck cv|cs2] eqn:Eg.
+  - contradiction.
+  - apply Fin; [discriminate|reflexivity|]. reflexivity.
+  - destruct (Nat.eqb_spec pos 16) as [E16|E16].
+    + exfalso. rewrite E16 in Eg. destruct H16 as [E|(v & E & _)]; rewrite E in Eg; discriminate.
+    + apply Fin; [discriminate|reflexivity|]. cbn [tl].
+      pose proof (Wp ltac:(lia)) as W.
+      inversion W; subst; [destruct p; reflexivity | destruct ck; [contradiction|reflexivity]].
+  - apply Fin; [discriminate|reflexivity|]. reflexivity.
+Qed.
+
+Lemma count_ge_one cs j : (j < length cs)%nat -> get_child cs j <> NNil -> (1 <= count_children cs)%nat.
+Proof.
+  unfold count_children. revert j. induction cs as [|x l IHl]; intros k Hk Hg; [cbn in Hk; lia|]. destruct k as [|k].
+  - cbn in Hg. destruct x; try contradiction; cbn; lia.
+  - cbn in Hg, Hk. specialize (IHl k ltac:(lia) Hg). destruct x; cbn; lia.
+Qed.
+
+Lemma delete_short nk c key : delete (NShort nk c) key =
+  let m := prefix_len key nk in
+  if Nat.ltb m (length nk) then NShort nk c
+  else if Nat.eqb m (length key) then NNil
+  else match delete c (skipn (length nk) key) with
+       | NShort ck cv => NShort (nk ++ ck) cv
+       | child => NShort nk child
+       end.
+Proof. reflexivity. Qed.
+
+Lemma lookup_NNil q : lookup NNil q = None. Proof. reflexivity. Qed.
+
+Theorem delete_spec : forall n, wf n -> forall k, vkey k ->
+  wfr (delete n k) /\
+  forall q, vkey q -> lookup (delete n k) q = if list_eq_dec N.eq_dec q k then None else lookup n q.
+Proof.
+  induction 1 as [p u Hp Hu|nk cs Hne Hlt Hfull IHfull|cs Hlen Hcnt Hch IHch H16]; intros k Hk.
+  - (* leaf *)
+    set (nk := p ++ [16]). assert (Hnk : vkey nk) by (exists p; auto).
+    rewrite delete_short. cbn zeta. pose proof (prefix_len_le_r k nk) as Hr.
+    destruct (Nat.ltb_spec (prefix_len k nk) (length nk)) as [Hm|Hm].
+    + split; [right; apply wf_leaf; assumption|]. intros q Vq.
+      destruct (list_eq_dec N.eq_dec q k) as [->|_]; [|reflexivity]. apply lookup_short_miss. lia.
+    + assert (Ek : k = nk) by (apply vkey_prefix_eq; auto; lia). subst k.
+      replace (prefix_len nk nk) with (length nk) by lia. rewrite Nat.eqb_refl.
+      split; [left; reflexivity|]. intros q Vq. rewrite lookup_NNil.
+      destruct (list_eq_dec N.eq_dec q nk) as [_|Hn]; [reflexivity|].
+      rewrite lookup_nil_insert by assumption. destruct (list_eq_dec N.eq_dec q nk); [contradiction|reflexivity].
+  - (* extension *)
+    rewrite delete_short. cbn zeta. pose proof (prefix_len_le_r k nk) as Hr.
+    destruct (Nat.ltb_spec (prefix_len k nk) (length nk)) as [Hm|Hm].
+    + split; [right; apply wf_ext; assumption|]. intros q Vq.
+      destruct (list_eq_dec N.eq_dec q k) as [->|_]; [|reflexivity]. apply lookup_short_miss. lia.
+    + assert (E : prefix_len k nk = length nk) by lia.
+      destruct (lookup_short_along nk (NFull cs) k Hk Hne Hlt E) as (k' & Ek & Hk' & _).
+      assert (Esk : skipn (length nk) k = k') by (rewrite Ek, skipn_app, Nat.sub_diag, skipn_all; reflexivity).
+      assert (Hlen : (length nk < length k)%nat).
+      { rewrite Ek, app_length. destruct k'; [exfalso; exact (vkey_nonempty _ Hk' eq_refl)|cbn; lia]. }
+      replace (prefix_len k nk =? length k)%nat with false by (symmetry; apply Nat.eqb_neq; lia).
+      rewrite Esk. destruct (IHfull k' Hk') as [Wc Lc].
+      (* the full node keeps a key: the child is not empty *)
+      assert (Hnn : delete (NFull cs) k' <> NNil).
+      { destruct (full_two_keys cs Hfull) as (x & y & qx & qy & Hxy & [Vx Lx] & [Vy Ly]).
+        intro En. rewrite En in Lc.
+        destruct (list_eq_dec N.eq_dec (x :: qx) k') as [Ex|Ex].
+        - pose proof (Lc (y :: qy) Vy) as L. rewrite lookup_NNil in L.
+          destruct (list_eq_dec N.eq_dec (y :: qy) k') as [Ey|_]; [rewrite <- Ex in Ey; inversion Ey; congruence|]. now apply Ly.
+        - pose proof (Lc (x :: qx) Vx) as L. rewrite lookup_NNil in L.
+          destruct (list_eq_dec N.eq_dec (x :: qx) k'); [contradiction|]. now apply Lx. }
+      destruct Wc as [En|Wc]; [contradiction|].
+      assert (Along : forall R, (forall q', vkey q' -> lookup R (nk ++ q') = lookup (delete (NFull cs) k') q') ->
+                (forall q, prefix_len q nk <> length nk -> lookup R q = None) ->
+                forall q, vkey q -> lookup R q = if list_eq_dec N.eq_dec q k then None else lookup (NShort nk (NFull cs)) q).
+      { intros R HR Hmiss q Vq. destruct (Nat.eq_dec (prefix_len q nk) (length nk)) as [Eq|Eq].
+        - destruct (lookup_short_along nk (NFull cs) q Vq Hne Hlt Eq) as (q' & Eqq & Vq' & L2).
+          rewrite L2. rewrite Eqq at 1. rewrite (HR q' Vq'), (Lc q' Vq').
+          destruct (list_eq_dec N.eq_dec q' k') as [E1|E1]; destruct (list_eq_dec N.eq_dec q k) as [E2|E2]; try reflexivity.
+          + exfalso. apply E2. now rewrite Eqq, Ek, E1.
+          + exfalso. apply E1. rewrite Eqq, Ek in E2. now apply app_inv_head in E2.
+        - rewrite (Hmiss q Eq), lookup_short_miss by exact Eq.
+          destruct (list_eq_dec N.eq_dec q k) as [->|_]; [contradiction|reflexivity]. }
+      destruct (delete (NFull cs) k') as [|w|ck cv|cs2] eqn:Ed; [contradiction|inversion Wc| |].
+      * inversion Wc as [p u Hpp Hu|k2 cs3 Hne2 Hl2 Hf2|]; subst.
+        -- (* the child collapsed into a leaf *)
+           split.
+           ++ right. rewrite app_assoc. apply wf_leaf; [apply Forall_app; auto|exact Hu].
+           ++ apply Along.
+              ** intros q' Vq'. rewrite lookup_short_split by (destruct nk; [contradiction|discriminate]).
+                 destruct p; reflexivity.
+              ** intros q Hq. apply lookup_short_miss. intro Ef. apply Hq. now apply prefix_len_app_full in Ef.
+        -- split.
+           ++ right. apply wf_ext; [destruct nk; [contradiction|discriminate] | apply Forall_app; auto | exact Hf2].
+           ++ apply Along.
+              ** intros q' Vq'. rewrite lookup_short_split by (destruct nk; [contradiction|discriminate]).
+                 destruct ck; [contradiction|reflexivity].
+              ** intros q Hq. apply lookup_short_miss. intro Ef. apply Hq. now apply prefix_len_app_full in Ef.
+      * split.
+        -- right. apply wf_ext; [exact Hne|exact Hlt|exact Wc].
+        -- apply Along.
+           ++ intros q' Vq'. apply lookup_short_app.
+           ++ intros q Hq. now apply lookup_short_miss.
+  - (* full node *)
+    destruct k as [|k0 kr]; [exfalso; exact (vkey_nonempty _ Hk eq_refl)|].
+    assert (Hk0 : k0 <= 16) by (apply (vkey_le16 _ _ Hk); left; reflexivity).
+    assert (Hi : (N.to_nat k0 < length cs)%nat) by lia.
+    rewrite (delete_full cs k0 kr Hi). set (i := N.to_nat k0) in *.
+    set (child := get_child cs i). set (child' := delete child kr).
+    (* the replaced child *)
+    assert (Hc' : (child' = NNil \/ ((i < 16)%nat /\ wf child')) /\
+                  forall qr, vkey (k0 :: qr) -> lookup child' qr = if list_eq_dec N.eq_dec qr kr then None else lookup child qr).
+    { apply vkey_cons in Hk as [[-> ->]|[Hlt Hkr]].
+      - unfold child', child. change (N.to_nat 16) with 16%nat in *. subst i.
+        destruct H16 as [E|(v & E & _)]; rewrite E; cbn [delete]; (split; [left; reflexivity|]);
+          intros qr Vq; apply vkey_cons in Vq as [[_ ->]|[Hl _]]; try lia; reflexivity.
+      - assert (Hi16 : (i < 16)%nat) by (unfold i; lia).
+        destruct (node_nil_dec child) as [En|Hn].
+        + unfold child'. rewrite En. cbn [delete]. split; [left; reflexivity|]. intros qr _. destruct (list_eq_dec N.eq_dec qr kr); reflexivity.
+        + assert (Hnth : nth_error cs i = Some child) by (apply get_nth_error; exact Hi).
+          destruct (IHch i child Hnth Hn Hi16 kr Hkr) as [Wc Lc]. split.
+          * destruct Wc as [E|W]; [left; exact E|right; split; assumption].
+          * intros qr Vq. apply vkey_cons in Vq as [[E _]|[_ Vqr]]; [lia|]. now apply Lc. }
+    destruct Hc' as [Wc' Lc'].
+    set (cs' := set_child cs i child').
+    assert (Kids : kids_ok cs').
+    { unfold kids_ok, cs'. rewrite set_child_length. split; [exact Hlen|]. split.
+      - intros j c Hn Hc Hj. apply nth_error_get in Hn. destruct (Nat.eq_dec i j) as [<-|Hij].
+        + rewrite get_set_same in Hn by exact Hi. subst c. destruct Wc' as [E|[_ W]]; [contradiction|exact W].
+        + rewrite get_set_other in Hn by exact Hij. apply (Hch j c); [rewrite get_nth_error by lia; now rewrite Hn|exact Hc|exact Hj].
+      - destruct (Nat.eq_dec i 16) as [Ei|Ei].
+        + rewrite Ei. rewrite get_set_same by lia. destruct Wc' as [E|[Hl _]]; [left; exact E|lia].
+        + rewrite get_set_other by exact Ei. exact H16. }
+    assert (Cnt : (1 <= count_children cs')%nat).
+    { destruct (count_two cs Hcnt) as (a & b & Hab & Hb & Ha' & Hb').
+      destruct (Nat.eq_dec a i) as [Ea|Ea].
+      - apply (count_ge_one cs' b); [unfold cs'; rewrite set_child_length; exact Hb|].
+        unfold cs'. rewrite get_set_other by lia. exact Hb'.
+      - apply (count_ge_one cs' a); [unfold cs'; rewrite set_child_length; lia|].
+        unfold cs'. rewrite get_set_other by lia. exact Ha'. }
+    split; [right; now apply reduce_full_wf|].
+    intros q Vq. rewrite (reduce_full_lookup cs' q Kids Cnt Vq).
+    destruct q as [|q0 qr]; [exfalso; exact (vkey_nonempty _ Vq eq_refl)|].
+    rewrite !lookup_full. unfold cs'.
+    destruct (N.eq_dec q0 k0) as [->|Hne0].
+    + fold i. rewrite get_set_same by exact Hi. rewrite (Lc' qr Vq). fold child.
+      destruct (list_eq_dec N.eq_dec qr kr) as [Er|Er]; destruct (list_eq_dec N.eq_dec (k0 :: qr) (k0 :: kr)) as [He|He]; try reflexivity.
+      * exfalso. apply He. now rewrite Er.
+      * exfalso. apply Er. now inversion He.
+    + rewrite get_set_other by (unfold i; lia).
+      destruct (list_eq_dec N.eq_dec (q0 :: qr) (k0 :: kr)) as [He|_]; [inversion He; contradiction|reflexivity].
+Qed.
+
+(* ================= any history of updates and deletions ================= *)
+(* Trie.TryUpdate on nibble keys: an empty value deletes *)
+Definition upd (n : node) (k : list N) (v : bytes) : node :=
+  match v with [] => delete n k | _ => insert n k (NVal v) end.
+(* the latest operation is at the head *)
+Definition run_ops (ops : list (list N * bytes)) : node :=
+  fold_right (fun kv n => upd n (fst kv) (snd kv)) NNil ops.
+Fixpoint map_get (ops : list (list N * bytes)) (q : list N) : option bytes :=
+  match ops with
+  | [] => None
+  | (k, v) :: t => if list_eq_dec N.eq_dec q k then (match v with [] => None | _ => Some v end) else map_get t q
+  end.
+
+Theorem run_ops_spec ops q : Forall (fun kv => vkey (fst kv)) ops -> vkey q ->
+  wfr (run_ops ops) /\ lookup (run_ops ops) q = map_get ops q.
+Proof.
+  intros Ho Vq. revert q Vq. induction ops as [|[k v] t IH]; intros q Vq; cbn [run_ops fold_right map_get fst snd].
+  - split; [left; reflexivity|reflexivity].
+  - inversion Ho as [|? ? Hk Ht]; subst. cbn [fst] in Hk. fold (run_ops t).
+    destruct (IH Ht q Vq) as [W L]. unfold upd. destruct v as [|v0 vt].
+    + (* deletion *)
+      destruct W as [En|W].
+      * rewrite En in *. cbn [delete]. split; [left; reflexivity|]. rewrite lookup_NNil.
+        destruct (list_eq_dec N.eq_dec q k); [reflexivity|]. rewrite <- L. reflexivity.
+      * destruct (delete_spec _ W k Hk) as [Wd Ld]. split; [exact Wd|]. rewrite (Ld q Vq).
+        destruct (list_eq_dec N.eq_dec q k); [reflexivity|exact L].
+    + destruct W as [En|W].
+      * rewrite En in *. split.
+        -- right. rewrite insert_nil by (now apply vkey_nonempty). destruct Hk as (p & -> & Hp). apply wf_leaf; [exact Hp|discriminate].
+        -- rewrite lookup_insert_nil by assumption. destruct (list_eq_dec N.eq_dec q k); [reflexivity|]. rewrite <- L. reflexivity.
+      * split; [right; apply insert_wf; [exact W|exact Hk|discriminate]|].
+        rewrite lookup_insert by (try assumption; discriminate).
+        destruct (list_eq_dec N.eq_dec q k); [reflexivity|exact L].
+Qed.
+
+(* the state root is a function of the content: two histories of updates and deletions that end in
+   the same content give the same tree, hence the same root under every hash function *)
+Theorem history_independent ops1 ops2 :
+  Forall (fun kv => vkey (fst kv)) ops1 -> Forall (fun kv => vkey (fst kv)) ops2 ->
+  (forall q, vkey q -> map_get ops1 q = map_get ops2 q) ->
+  run_ops ops1 = run_ops ops2 /\ forall H, root_hash H (run_ops ops1) = root_hash H (run_ops ops2).
+Proof.
+  intros H1 H2 E.
+  assert (Eq : run_ops ops1 = run_ops ops2).
+  { apply canonical_root.
+    - exact (proj1 (run_ops_spec ops1 [16] H1 vkey_term)).
+    - exact (proj1 (run_ops_spec ops2 [16] H2 vkey_term)).
+    - intros q Vq. rewrite (proj2 (run_ops_spec ops1 q H1 Vq)), (proj2 (run_ops_spec ops2 q H2 Vq)). now apply E. }
+  split; [exact Eq|]. intro H. now rewrite Eq.
+Qed.
